@@ -135,6 +135,12 @@ def drive(sd, workdir, tid=0, limit=2.0, other=None, seed=0):
     try:
         os.environ['XDG_CACHE_HOME'] = own
         first = None
+        # cache history: for half of the settings the very first query on the empty cache asks for ONE pattern only
+        if plist and rng.random() < 0.5:
+            try:
+                list(AggregateAssignmentMatrixGenerator(st).iter_matrices(existence=plist[rng.randrange(len(plist))]))
+            except Exception:
+                pass
         for hist in ('cold', 'warm'):
             rec = {'e': 'Sel', 'hist': hist, 'limit_ms': limit_ms(limit), 'sched': limit if is_sched(limit) else '', 'err': '', 'desc': {'encoder': '', 'ndv': [], 'map': []},
                    'matrix_cache_ok': True}
